@@ -72,7 +72,7 @@ def _case(draw):
     # half of the descriptions are tidy ones (few shapes, so that most operations succeed on them); a return entry with a
     # default is forced into a third - it is what the class / function emitters move around and cut from the body
     tidy = draw(st.booleans())
-    forced = draw(st.sampled_from((None, None, "returns_default")))
+    forced = draw(st.sampled_from((None, None, "returns_default", "two_announcements")))
     ir = draw(domain.ir_strategy(allowed=TIDY if tidy else CORE_ALLOWED, forced=forced, max_params=4))
     if ir.get("returns") and "doc" in ir["returns"] and draw(st.integers(0, 2)) == 0:
         ir["returns"]["default"] = domain.NONE_STR  # what parse.function records for a documented `return None`
